@@ -336,20 +336,26 @@ func (cw *CountingWindow) getKey(data any) string {
 	v := reflect.ValueOf(data)
 	keyParts := make([]string, 0, len(keys))
 	for _, k := range keys {
-		var part string
+		var val any // stays nil for a missing field: NULL
 		switch v.Kind() {
 		case reflect.Map:
 			if v.Type().Key().Kind() == reflect.String {
 				mv := v.MapIndex(reflect.ValueOf(k))
 				if mv.IsValid() {
-					part = cast.ToString(mv.Interface())
+					val = mv.Interface()
 				}
 			}
 		case reflect.Struct:
 			f := v.FieldByName(k)
 			if f.IsValid() {
-				part = cast.ToString(f.Interface())
+				val = f.Interface()
 			}
+		}
+		// '|' and '\' inside a value are escaped and NULL has its own marker, so
+		// ("a|b","c") / ("a","b|c") and NULL / "" do not share a buffer.
+		part := cast.GroupKeyNull
+		if val != nil {
+			part = cast.EscapeGroupKeyText(cast.ToString(val))
 		}
 		keyParts = append(keyParts, part)
 	}
